@@ -156,7 +156,13 @@ fn main() {
                 usage();
             }
             let verbose = args.iter().any(|a| a == "-v");
-            std::process::exit(replay_file(&props, &PathBuf::from(&args[2]), verbose));
+            std::process::exit(replay_cmd(&props, &PathBuf::from(&args[2]), verbose));
+        }
+        "replay-inner" => {
+            if args.len() < 3 {
+                usage();
+            }
+            std::process::exit(replay_file(&props, &PathBuf::from(&args[2]), false));
         }
         "selftest" => {
             if args.len() < 4 || args[2] != "determinism" {
